@@ -855,18 +855,8 @@ impl<T: Serialize + for<'de> Deserialize<'de> + Clone + PartialEq + Send + Sync 
         // find_snapshots returns the newest snapshot first
         for snapshot_path in snapshots.iter() {
             match self.load_snapshot(snapshot_path).await {
-                Ok((header, loaded_state)) => {
+                Ok((header, loaded_state, checksum)) => {
                     // Verify checksum
-                    let data = postcard::to_stdvec(&loaded_state).map_err(|e| {
-                        P2PError::Storage(StorageError::Database(
-                            format!("Failed to serialize for checksum: {e}").into(),
-                        ))
-                    })?;
-
-                    let mut hasher = Sha256::new();
-                    hasher.update(&data);
-                    let checksum: [u8; 32] = hasher.finalize().into();
-
                     if checksum != header.checksum {
                         stats.corruption_events.push(CorruptionEvent {
                             file_path: snapshot_path.clone(),
@@ -1189,7 +1179,13 @@ impl<T: Serialize + for<'de> Deserialize<'de> + Clone + PartialEq + Send + Sync 
     }
 
     /// Load snapshot from file
-    async fn load_snapshot(&self, path: &Path) -> Result<(SnapshotHeader, HashMap<String, T>)> {
+    ///
+    /// Returns the header, the decoded state and the SHA-256 of the state bytes as read
+    /// from the file, for comparison with `header.checksum`.
+    async fn load_snapshot(
+        &self,
+        path: &Path,
+    ) -> Result<(SnapshotHeader, HashMap<String, T>, [u8; 32])> {
         let mut file = File::open(path).map_err(|e| {
             P2PError::Storage(StorageError::Database(
                 format!("Failed to open snapshot: {e}").into(),
@@ -1236,6 +1232,12 @@ impl<T: Serialize + for<'de> Deserialize<'de> + Clone + PartialEq + Send + Sync 
             ))
         })?;
 
+        // Checksum of the bytes on disk (re-serialising the decoded map would not
+        // reproduce them: HashMap iteration order is not stable)
+        let mut hasher = Sha256::new();
+        hasher.update(&snapshot_data);
+        let checksum: [u8; 32] = hasher.finalize().into();
+
         // Deserialize state
         let state: HashMap<String, T> = postcard::from_bytes(&snapshot_data).map_err(|e| {
             P2PError::Storage(StorageError::Database(
@@ -1243,7 +1245,7 @@ impl<T: Serialize + for<'de> Deserialize<'de> + Clone + PartialEq + Send + Sync 
             ))
         })?;
 
-        Ok((header, state))
+        Ok((header, state, checksum))
     }
 
     /// Clean up old WAL files
@@ -1453,19 +1455,9 @@ impl<T: Serialize + for<'de> Deserialize<'de> + Clone + PartialEq + Send + Sync 
 
     /// Verify snapshot integrity
     async fn verify_snapshot_integrity(&self, path: &Path) -> Result<()> {
-        let (header, state) = self.load_snapshot(path).await?;
+        let (header, _state, checksum) = self.load_snapshot(path).await?;
 
         // Verify checksum
-        let data = postcard::to_stdvec(&state).map_err(|e| {
-            P2PError::Storage(StorageError::Database(
-                format!("Failed to serialize for checksum: {e}").into(),
-            ))
-        })?;
-
-        let mut hasher = Sha256::new();
-        hasher.update(&data);
-        let checksum: [u8; 32] = hasher.finalize().into();
-
         if checksum != header.checksum {
             return Err(P2PError::Storage(
                 crate::error::StorageError::CorruptionDetected(
